@@ -29,6 +29,7 @@ pub unsafe fn shim_get_unchecked<T>(v: &Vec<T>, i: usize) -> (r: &T)
 // PROVIDED the caller passes k's own hash (that is what "nocheck" means): stated as a precondition.
 pub trait Hashable {
     spec fn hash_of(&self) -> u64;
+    #[verifier::when_used_as_spec(hash_of)]
     fn hashable(&self) -> (r: u64)
         ensures r == self.hash_of();
 }
@@ -90,8 +91,12 @@ pub mod hb {
         pub fn from_hash<F: FnMut(&K) -> bool>(self, hash: u64, is_match: F) -> (r: RawEntryMut<'a, K, V>)
             requires forall|k: &K| is_match.requires((k,)),
             ensures match r {
-                RawEntryMut::Occupied(e) => old(self.map)@.contains_key(e.key@) && *e.map == *old(self.map) && *final(e.map) == *final(self.map),
-                RawEntryMut::Vacant(e) => *e.map == *old(self.map) && *final(e.map) == *final(self.map),
+                // the key found is one the predicate accepted ...
+                RawEntryMut::Occupied(e) => old(self.map)@.contains_key(e.key@) && is_match.ensures((&e.key@,), true)
+                    && *e.map == *old(self.map) && *final(e.map) == *final(self.map),
+                // ... vacancy means every stored key with this hash was rejected; it establishes nothing about any particular key
+                RawEntryMut::Vacant(e) => (forall|k: K| #![trigger old(self.map)@.contains_key(k)] old(self.map)@.contains_key(k) && k.hash_of() == hash ==> is_match.ensures((&k,), false))
+                    && *e.map == *old(self.map) && *final(e.map) == *final(self.map),
             },
         { unimplemented!() }
 
@@ -116,12 +121,17 @@ pub mod hb {
         /// restriction, stated as a precondition.
         #[verifier::external_body]
         pub fn insert(self, key: K, value: V) -> (r: RawOccupiedEntryMut<'a, K, V>)
-            requires self is Vacant,
+            requires self matches RawEntryMut::Vacant(e) && !e.map@.contains_key(e.key@),
             ensures r.key@ == key, r.map@ == self.map_now().insert(key, value), self.map_final() == (*final(r.map))@,
         { unimplemented!() }
 
         #[verifier::external_body]
         pub fn or_insert(self, default_key: K, default_val: V) -> (r: (&'a mut K, &'a mut V))
+            // hashbrown's raw-entry contract: inserting through a vacant entry does NOT check for an existing equal key; the
+            // vacancy must have been established for the key (`e.key`, set by from_key_hashed_nocheck; a `from_hash` lookup with
+            // an arbitrary predicate establishes nothing), or the table ends up with two entries (two storages) for one key.
+            // That the key then inserted is a faithful clone of the looked-up key is ASSUMED (K: Clone)
+            requires self matches RawEntryMut::Vacant(e) ==> !e.map@.contains_key(e.key@),
             ensures match self {
                 RawEntryMut::Occupied(e) => *r.1 == e.map@[e.key@] && self.map_final() == e.map@.insert(e.key@, *final(r.1)),
                 RawEntryMut::Vacant(e) => *r.1 == default_val && self.map_final() == e.map@.insert(default_key, *final(r.1)),
@@ -131,6 +141,8 @@ pub mod hb {
         #[verifier::external_body]
         pub fn or_insert_with<F: FnOnce() -> (K, V)>(self, default: F) -> (r: (&'a mut K, &'a mut V))
             requires self is Vacant ==> default.requires(()),
+                     // hashbrown's raw-entry contract (see or_insert): the inserted key must be known to be absent
+                     self matches RawEntryMut::Vacant(e) ==> !e.map@.contains_key(e.key@),
             ensures match self {
                 // occupied: the existing value, `default` is NOT called, no other entry changes
                 RawEntryMut::Occupied(e) => *r.1 == e.map@[e.key@] && self.map_final() == e.map@.insert(e.key@, *final(r.1)),
